@@ -362,7 +362,7 @@ def run(chk):
                 scen.append((j['script'], dict(ctxs=0, kinds=['corpus'])))
     scen += G.fixed_scenarios()
     rng = chk.rng('scen')
-    n = 60 if quick else 1500
+    n = 60 if quick else 4000
     for _ in range(n):
         scen.append(G.scenario(rng))
 
@@ -404,7 +404,7 @@ def run(chk):
                     what)
     nfix = len(scen) - n
     asan_pass(chk, model, scen[:nfix] + scen[-(10 if quick else 150):], seen_sigs)
-    nbad = ch_correspond(chk, impl, model, 150 if quick else 5000)
+    nbad = ch_correspond(chk, impl, model, 150 if quick else 20000)
     if nbad:
         seen_sigs['codeholder'] = None
     broken = [r for r in (r1, r2) if not r['ok']]
@@ -422,6 +422,16 @@ def run(chk):
 def replay(chk, path):
     j = json.load(open(path))
     impl, model = build()
+    if 'ops' in j['replay']:            # code-holder correspondence case
+        bad, status = ch_case(impl, model, j['replay']['ops'])
+        print('ops:', j['replay']['ops'])
+        print('status:', status, '' if bad is None else json.dumps(bad[1:], indent=1)[:1500])
+        return 1 if bad is not None else 0
+    if 'report' in j['replay']:         # AddressSanitizer pass
+        rc, out, err = run_script(build('asan')[0], j['replay']['script'])
+        print('rc', rc)
+        print(err[:2500])
+        return 1 if 'AddressSanitizer' in err else 0
     lines = j['replay']['script']
     probs, status, traces, steps, results, notes = check_script(impl, model, lines)
     for l in short(lines):
